@@ -19,7 +19,10 @@ use crate::util::guard;
 
 pub async fn roundtrip(name: &str, batches: Vec<RecordBatch>, ver: LanceFileVersion, tune: impl Fn(&mut WriteParams)) {
     let schema = batches[0].schema();
-    let uri = format!("memory://probe-{name}-{ver:?}");
+    // URL-safe table name: anything else makes the URI unparseable and Lance falls back to a
+    // *local path* relative to the cwd
+    let safe: String = name.chars().map(|c| if c.is_ascii_alphanumeric() { c } else { '_' }).collect();
+    let uri = format!("memory://probe-{safe}-{:x}-{ver:?}", vmon::prng::fnv_str(name));
     let mut p = WriteParams {
         mode: WriteMode::Create,
         data_storage_version: Some(ver),
@@ -286,6 +289,92 @@ async fn probe_sliced_null_list() {
     }
 }
 
+async fn probe_allnull_list() {
+    for ver in [LanceFileVersion::V2_0, LanceFileVersion::V2_1, LanceFileVersion::V2_2] {
+        for item_nullable in [true, false] {
+            for (name, valid, lens, extra) in [
+                ("one NULL list, empty range", vec![false], vec![0usize], 0usize),
+                ("one NULL list, garbage range", vec![false], vec![2usize], 0),
+                ("two NULL lists", vec![false, false], vec![0usize, 0], 0),
+                ("NULL + [7]", vec![false, true], vec![0usize, 1], 0),
+                ("NULL(g2),NULL(0)", vec![false, false], vec![2usize, 0], 0),
+                ("NULL(0),NULL(g2)", vec![false, false], vec![0usize, 2], 0),
+                ("NULL(g2),NULL(g1),NULL(0)", vec![false, false, false], vec![2usize, 1, 0], 0),
+                ("one NULL list, 3 unreferenced trailing values", vec![false], vec![0usize], 3),
+                ("[5], 3 unreferenced trailing values", vec![true], vec![1usize], 3),
+                ("NULL,[5], 3 unreferenced trailing values", vec![false, true], vec![0usize, 1], 3),
+            ] {
+                let total: usize = lens.iter().sum::<usize>() + extra;
+                let child = if item_nullable && name.contains("unreferenced") {
+                    // unreferenced values, some of them NULL
+                    Int32Array::from((0..total as i32).map(|i| if i % 2 == 0 { None } else { Some(i) }).collect::<Vec<_>>())
+                } else {
+                    Int32Array::from((0..total as i32).collect::<Vec<_>>())
+                };
+                let l = ListArray::new(
+                    Arc::new(Field::new("item", DataType::Int32, item_nullable)),
+                    OffsetBuffer::from_lengths(lens.clone()),
+                    Arc::new(child),
+                    Some(NullBuffer::from(valid.clone())),
+                );
+                let schema = Arc::new(Schema::new(vec![
+                    Field::new("id", DataType::Int64, false),
+                    Field::new("l", l.data_type().clone(), true),
+                ]));
+                let b = RecordBatch::try_new(schema, vec![ids(0, valid.len()), Arc::new(l)]).unwrap();
+                roundtrip(&format!("x{name} item_nullable={item_nullable}"), vec![b], ver, |_| {}).await;
+            }
+        }
+    }
+}
+
+async fn probe_nested_list() {
+    // list<list<int32>>: outer lists given as Vec<Option<Vec<Option<i32>>>> (inner list may be NULL)
+    type Outer = Vec<Option<Vec<Option<i32>>>>;
+    let cases: Vec<(&str, Vec<Outer>)> = vec![
+        ("[[NULL]]", vec![vec![Some(vec![None])]]),
+        ("[NULL]", vec![vec![None]]),
+        ("[NULL,[1]]", vec![vec![None, Some(vec![Some(1)])]]),
+        ("[[1],NULL]", vec![vec![Some(vec![Some(1)]), None]]),
+        ("[NULL,NULL,NULL]", vec![vec![None, None, None]]),
+        ("[[1]],[NULL]", vec![vec![Some(vec![Some(1)])], vec![None]]),
+        ("[[1,2],[3]]", vec![vec![Some(vec![Some(1), Some(2)]), Some(vec![Some(3)])]]),
+        ("[NULL,NULL]", vec![vec![None, None]]),
+        ("[[1],NULL,NULL]", vec![vec![Some(vec![Some(1)]), None, None]]),
+        ("[NULL,NULL,[1]]", vec![vec![None, None, Some(vec![Some(1)])]]),
+        ("[NULL,NULL],[[1]]", vec![vec![None, None], vec![Some(vec![Some(1)])]]),
+        ("[NULL,NULL],[[]]", vec![vec![None, None], vec![Some(vec![])]]),
+        ("[[],[]]", vec![vec![Some(vec![]), Some(vec![])]]),
+        ("[[],[],[]],[[1]]", vec![vec![Some(vec![]), Some(vec![]), Some(vec![])], vec![Some(vec![Some(1)])]]),
+    ];
+    for ver in [LanceFileVersion::V2_0, LanceFileVersion::V2_1, LanceFileVersion::V2_2] {
+        for (name, rows) in &cases {
+            let mut b = ListBuilder::new(ListBuilder::new(Int32Builder::new()));
+            for outer in rows {
+                for inner in outer {
+                    match inner {
+                        None => b.values().append_null(),
+                        Some(items) => {
+                            for it in items {
+                                b.values().values().append_option(*it);
+                            }
+                            b.values().append(true);
+                        }
+                    }
+                }
+                b.append(true);
+            }
+            let l = Arc::new(b.finish());
+            let schema = Arc::new(Schema::new(vec![
+                Field::new("id", DataType::Int64, false),
+                Field::new("l", l.data_type().clone(), true),
+            ]));
+            let batch = RecordBatch::try_new(schema, vec![ids(0, rows.len()), l]).unwrap();
+            roundtrip(&format!("nested {name}"), vec![batch], ver, |_| {}).await;
+        }
+    }
+}
+
 pub fn run(args: &Args) -> i32 {
     crate::util::install_quiet_panic_hook();
     let rt = tokio::runtime::Builder::new_current_thread().enable_all().build().unwrap();
@@ -295,6 +384,8 @@ pub fn run(args: &Args) -> i32 {
             "list" => probe_list_batches().await,
             "itemnull" => probe_list_itemnull().await,
             "nulllist" => probe_nulllist().await,
+            "nestedlist" => probe_nested_list().await,
+            "allnulllist" => probe_allnull_list().await,
             "slicednull" => probe_sliced_null_list().await,
             "itemnull_min" => probe_itemnull_min().await,
             other => println!("unknown probe {other}"),
